@@ -118,14 +118,16 @@ def _check_model(net, bounds, flip, scale, stats, rich=False, origin=None):
         ed.fluxes[ids[-1]] = ed.fluxes[ids[-1]] * 0.5 - 0.25
         sols.append(("edited", ed))
         fva_frame = flux_variability_analysis(model, processes=1) if z >= 0 else None
+        # a frame with wide ranges (half of the optimum suffices): the same object is handed to every summary in turn
+        fva_half = flux_variability_analysis(model, fraction_of_optimum=0.5, processes=1) if z >= 0 else None
         default_sol = pfba(model)
     fvas = [("none", None)]
     if z >= 0:
-        fvas += [("0.9", 0.9), ("1.0", 1.0), ("frame", fva_frame)]
+        fvas += [("0.9", 0.9), ("1.0", 1.0), ("frame", fva_frame), ("frame_half", fva_half)]
     exact_ranges = {}
     for fname, fv in fvas:
         if fv is not None:
-            frac = 0.9 if fname == "0.9" else 1.0
+            frac = {"0.9": 0.9, "frame_half": 0.5}.get(fname, 1.0)
             lp, _ = oracles.constrained_lp(fba, frac)
             exact_ranges[fname] = oracles.ranges(fba, lp)
     for sname, sol in sols:
